@@ -169,6 +169,9 @@ func (w *World) exchange(entity Entity, add []ID, rem []ID, relations []relation
 
 	mask := oldArchetype.mask
 	newTable, newArch, relRemoved := w.storage.findOrCreateTable(oldTable, add, rem, relations, &mask)
+	// Register targets before any user callback runs, as the relations slice
+	// is a re-used buffer of the caller that a callback could overwrite.
+	w.storage.registerTargets(relations)
 
 	// Get the old table and archetype again, as the pointer may have changed.
 	oldTable = &w.storage.tables[oldTable.id]
@@ -207,8 +210,6 @@ func (w *World) exchange(entity Entity, add []ID, rem []ID, relations []relation
 	}
 	w.storage.entities[entity.id] = entityIndex{table: newTable.id, row: newIndex}
 
-	w.storage.registerTargets(relations)
-
 	return &oldArchetype.mask, &newArch.mask
 }
 
@@ -246,6 +247,11 @@ func (w *World) exchangeBatch(batch *Batch, add []ID, rem []ID,
 		})
 	}
 	w.storage.slices.tables = tables[:0]
+	// Register targets before any user callback runs, as the relations slice
+	// is a re-used buffer of the caller that a callback could overwrite.
+	if len(batchTables) > 0 {
+		w.storage.registerTargets(relations)
+	}
 
 	if len(rem) > 0 {
 		if w.storage.observers.HasObservers(OnRemoveComponents) {
@@ -283,7 +289,7 @@ func (w *World) exchangeBatch(batch *Batch, add []ID, rem []ID,
 	for i := range batchTables {
 		batch := &batchTables[i]
 
-		start, len := w.exchangeTable(batch.oldTable, batch.newTable, relations)
+		start, len := w.exchangeTable(batch.oldTable, batch.newTable)
 		if fn != nil {
 			fn(batch.newTable, start, len)
 		}
@@ -329,7 +335,7 @@ func (w *World) exchangeBatch(batch *Batch, add []ID, rem []ID,
 
 // exchangeTable performs batch-exchange on a single table.
 // Returns the start index of the entities in the new table and number of entities.
-func (w *World) exchangeTable(oldTableID, newTableID tableID, relations []relationID) (uint32, uint32) {
+func (w *World) exchangeTable(oldTableID, newTableID tableID) (uint32, uint32) {
 	oldTable := &w.storage.tables[oldTableID]
 
 	oldArchetype := &w.storage.archetypes[oldTable.archetype]
@@ -362,7 +368,6 @@ func (w *World) exchangeTable(oldTableID, newTableID tableID, relations []relati
 	}
 
 	oldTable.Reset()
-	w.storage.registerTargets(relations)
 
 	return startIdx, count
 }
@@ -399,6 +404,9 @@ func (w *World) setRelations(entity Entity, relations []relationID) {
 		// Get the old table again, as pointers may have changed.
 		oldTable = &w.storage.tables[oldTable.id]
 	}
+	// Register targets before any user callback runs, as the relations slice
+	// is a re-used buffer of the caller that a callback could overwrite.
+	w.storage.registerTargets(relations)
 
 	if w.storage.observers.HasObservers(OnRemoveRelations) {
 		lock := w.lock()
@@ -418,8 +426,6 @@ func (w *World) setRelations(entity Entity, relations []relationID) {
 		w.storage.entities[swapEntity.id].row = index.row
 	}
 	w.storage.entities[entity.id] = entityIndex{table: newTable.id, row: newIndex}
-
-	w.storage.registerTargets(relations)
 
 	if w.storage.observers.HasObservers(OnAddRelations) {
 		newMask := &w.storage.archetypes[newTable.archetype].mask
@@ -460,6 +466,9 @@ func (w *World) setRelationsBatch(batch *Batch, relations []relationID, fn func(
 	}
 	w.storage.slices.ints = lengths[:0]
 	w.storage.slices.tables = tables[:0]
+	// Register targets before any user callback runs, as the relations slice
+	// is a re-used buffer of the caller that a callback could overwrite.
+	w.storage.registerTargets(relations)
 
 	if hasRemoveObs {
 		for i := range batchTables {
@@ -486,8 +495,6 @@ func (w *World) setRelationsBatch(batch *Batch, relations []relationID, fn func(
 			fn(b.newTable, int(b.start), int(b.len))
 		}
 	}
-
-	w.storage.registerTargets(relations)
 
 	if hasAddObs {
 		for i := range batchTables {
